@@ -132,6 +132,9 @@ func (c *Ctx) ruleGrammar(rule string) {
 										if vc, ok := v.(*ssa.Call); ok && core.StaticCalleeName(&vc.Call) == "regexp.QuoteMeta" {
 											continue
 										}
+										if c.quotedText(v, 0) {
+											continue
+										}
 										kq := key(rule, c.M.Key(fn), sprintf("regexp template #%d: interpolated text is quoted", idx))
 										c.R.Bad(rule, kq, pos, "text interpolated into the grammar without regexp.QuoteMeta", "unit names with regexp metacharacters change the grammar")
 									}
@@ -931,23 +934,58 @@ func (c *Ctx) ruleSibling(rule string) {
 			continue
 		}
 		var inLoop, afterLoop []*ssa.Call
+		// the formatter itself, and the helper of the units file that holds its loop (the two integer formatters may share
+		// one, with the per-unit formatter handed in as a function)
+		scan := []*ssa.Function{fn}
+		inFile := map[*ssa.Function]bool{}
+		for _, f := range c.unitFuncs() {
+			inFile[f] = true
+		}
 		for _, b := range fn.Blocks {
 			for _, in := range b.Instrs {
-				call, ok := in.(*ssa.Call)
-				if !ok {
-					continue
+				if call, ok := in.(*ssa.Call); ok {
+					if h := core.StaticBody(&call.Call); h != nil && h != fn && inFile[h] && !strings.Contains(strings.ToLower(h.Name()), "format"+"number") {
+						hasLoop := false
+						for _, hb := range h.Blocks {
+							if blockInLoop(hb) {
+								hasLoop = true
+							}
+						}
+						handsFunc := false
+						for _, a := range call.Call.Args {
+							if _, isFunc := a.Type().Underlying().(*types.Signature); isFunc {
+								handsFunc = true
+							}
+						}
+						if hasLoop && handsFunc {
+							scan = append(scan, h)
+						}
+					}
 				}
-				callee := ""
-				if cs := c.M.Callees(&call.Call); len(cs) == 1 {
-					callee = c.M.Key(cs[0])
-				}
-				if !strings.Contains(strings.ToLower(callee), "format") {
-					continue
-				}
-				if blockInLoop(b) {
-					inLoop = append(inLoop, call)
-				} else {
-					afterLoop = append(afterLoop, call)
+			}
+		}
+		for _, f := range scan {
+			for _, b := range f.Blocks {
+				for _, in := range b.Instrs {
+					call, ok := in.(*ssa.Call)
+					if !ok {
+						continue
+					}
+					cs := c.M.Callees(&call.Call)
+					all := len(cs) > 0
+					for _, callee := range cs {
+						if !strings.Contains(strings.ToLower(c.M.Key(callee)), "format") {
+							all = false
+						}
+					}
+					if !all || (f == fn && len(scan) > 1 && core.StaticBody(&call.Call) == scan[1]) {
+						continue
+					}
+					if blockInLoop(b) {
+						inLoop = append(inLoop, call)
+					} else {
+						afterLoop = append(afterLoop, call)
+					}
 				}
 			}
 		}
@@ -1117,6 +1155,101 @@ func isLoopHeader(b *ssa.BasicBlock) bool {
 		if b.Dominates(p) {
 			return true
 		}
+	}
+	return false
+}
+
+// quotedText: the text is made of nothing but results of regexp.QuoteMeta and constants - directly, concatenated,
+// joined (strings.Join of a slice every element of which is such a text, with a constant separator), or handed out by a
+// helper of the module every way out of which returns such a text.
+func (c *Ctx) quotedText(v ssa.Value, depth int) bool {
+	if v == nil || depth > 6 {
+		return false
+	}
+	switch x := v.(type) {
+	case *ssa.Const:
+		return true
+	case *ssa.MakeInterface:
+		return c.quotedText(x.X, depth+1)
+	case *ssa.BinOp:
+		return x.Op == token.ADD && c.quotedText(x.X, depth+1) && c.quotedText(x.Y, depth+1)
+	case *ssa.Phi:
+		for _, e := range x.Edges {
+			if !c.quotedText(e, depth+1) {
+				return false
+			}
+		}
+		return len(x.Edges) > 0
+	case *ssa.Call:
+		switch core.StaticCalleeName(&x.Call) {
+		case "regexp.QuoteMeta":
+			return true
+		case "strings.Join":
+			if _, isConst := x.Call.Args[1].(*ssa.Const); !isConst {
+				return false
+			}
+			return c.quotedElems(x.Call.Args[0], depth+1)
+		}
+		if h := core.StaticBody(&x.Call); h != nil && h.Pkg != nil && c.M.IsRepoPkg(h.Pkg.Pkg) && h.Signature.Results().Len() == 1 {
+			rets := core.ReturnInstrs(h)
+			for _, r := range rets {
+				if !c.quotedText(r.Results[0], depth+2) {
+					return false
+				}
+			}
+			return len(rets) > 0
+		}
+	}
+	return false
+}
+
+// quotedElems: every element stored into the slice is a quoted text.
+func (c *Ctx) quotedElems(s ssa.Value, depth int) bool {
+	if depth > 8 {
+		return false
+	}
+	stores := func(base ssa.Value) (int, bool) {
+		n := 0
+		if base.Referrers() == nil {
+			return 0, true
+		}
+		for _, r := range *base.Referrers() {
+			if ia, ok := r.(*ssa.IndexAddr); ok && ia.Referrers() != nil {
+				for _, r2 := range *ia.Referrers() {
+					if st, ok := r2.(*ssa.Store); ok && st.Addr == ssa.Value(ia) {
+						n++
+						if !c.quotedText(st.Val, depth+1) {
+							return n, false
+						}
+					}
+				}
+			}
+		}
+		return n, true
+	}
+	switch x := s.(type) {
+	case *ssa.MakeSlice:
+		n, ok := stores(x)
+		return ok && n > 0
+	case *ssa.Slice:
+		if al, ok := x.X.(*ssa.Alloc); ok {
+			n, ok := stores(al)
+			return ok && n > 0
+		}
+	case *ssa.Call:
+		if bi, ok := x.Call.Value.(*ssa.Builtin); ok && bi.Name() == "append" {
+			return c.quotedElems(x.Call.Args[0], depth+1) && (len(x.Call.Args) < 2 || c.quotedElems(x.Call.Args[1], depth+1))
+		}
+	case *ssa.Phi:
+		for _, e := range x.Edges {
+			if ee, isConst := e.(*ssa.Const); isConst && ee.IsNil() {
+				continue
+			}
+			if !c.quotedElems(e, depth+1) {
+				return false
+			}
+		}
+		return true
 	}
 	return false
 }
